@@ -3,6 +3,8 @@ import VelaVerif.Lemmas.Lut
 import VelaVerif.Lemmas.FpMathExp
 import VelaVerif.Lemmas.LutHardswish
 import VelaVerif.Gen.FpMathTables
+import VelaVerif.Lemmas.SoftmaxTable
+import VelaVerif.Lemmas.RsqrtTable
 /-!
 # C19 — lookup tables and compile-time fixed-point maths match their reference functions
 
@@ -242,6 +244,160 @@ theorem lut8_saturated (signed : Bool) (g : Int → Int) :
     unfold clamp
     omega
 
+/-! ## the int8 RSQRT table (`create_lut_rsqrt_int8_op`) -/
+
+/-- the 256 constants `RSQRT_LUT` quoted in `lut.py` ("generated by printing the output from the reference") **are** the
+    reference's values: entry `n` (`1 ≤ n ≤ 255`) = `MultiplyByQuantizedMultiplier(1, inv_sqrt_multiplier, inv_sqrt_shift + 20)`
+    with `GetInvSqrtQuantizedMultiplierExp(n, -1, …)` (five fixed-point Newton–Raphson steps), recomputed here for every
+    entry of the table regenerated from the live source; every constant fits int32; entry 0 is 0. -/
+theorem rsqrt_constants_match :
+    Gen.rsqrtLut.length = 256 ∧ Gen.rsqrtLut[0]? = some 0 ∧ (∀ v ∈ Gen.rsqrtLut, inI32 v = true) ∧
+    ∀ n : Nat, n < 256 → n ≠ 0 → Gen.rsqrtLut[n]? = some (RsqrtRef.rsqrtData (n : Int)) := by decide +kernel
+
+/-- `create_lut_rsqrt_int8_op` with input zero point −128 (real input range starting at 0 — the quantisation of a
+    non-negative tensor): **each of the 256 entries equals the TFLite reference `Rsqrt` int8 kernel**, for every int32
+    output multiplier and Vela shift in `[11, 42]` (scale `1/(√s_in·s_out)` between 2^-12 and 2^20), every output zero point,
+    and lies in `[-128, 127]`.  For other input zero points see `rsqrt_zero_input_witness`. -/
+theorem rsqrt_lut_spec (zpOut mult shift : Int) (hm : inI32 mult = true) (hs : 11 ≤ shift ∧ shift ≤ 42) :
+    rsqrtLut Gen.rsqrtLut (-128) zpOut mult shift =
+      .ok ((codes true).map (RsqrtRef.rsqrtRef (-128) zpOut mult (31 - shift))) ∧
+    ∀ v ∈ (codes true).map (RsqrtRef.rsqrtRef (-128) zpOut mult (31 - shift)), -128 ≤ v ∧ v ≤ 127 := by
+  obtain ⟨_, _, hI, htbl⟩ := rsqrt_constants_match
+  constructor
+  · exact mapM_ok _ _ _ (fun x hx => rsqrt_entry_eq Gen.rsqrtLut htbl hI zpOut mult shift x hm hs (by
+      have := codes_mem true x hx; simpa [qmin, qmax] using this))
+  · intro v hv
+    simp only [List.mem_map] at hv
+    obtain ⟨x, _, rfl⟩ := hv
+    unfold RsqrtRef.rsqrtRef
+    simp only []
+    split <;> omega
+
+/-- With an input zero point other than −128 the entry for real input 0 (`x = zp_in`) is **not** the reference's: the
+    reference returns the maximum 127 ("any value close to 0 represents the max output value"), the Python looks up
+    `RSQRT_LUT[0] = 0` and yields the output zero point (only index −128 is forced to 127).  int8, zero points 0 / 5,
+    multiplier 2^30, shift 20, code 0. -/
+theorem rsqrt_zero_input_witness :
+    rsqrtEntry Gen.rsqrtLut 0 5 1073741824 20 0 = .ok 5 ∧ RsqrtRef.rsqrtRef 0 5 1073741824 (31 - 20) 0 = 127 := by decide
+
+/-! ## the exp table of the 8-bit SOFTMAX (`SoftMax.generate_exp_table`) -/
+
+/-- `generate_exp_table` = TFLite `PreprocessSoftmaxScaling` + `CalculateInputRadius` + per element
+    `exp_on_negative_values(MultiplyByQuantizedMultiplierGreaterThanOne(input_diff))`, **for every double
+    `prod = double(beta)·double(input_scale)·2^26 = q·2^(26−k) > 1`** (`2^52 ≤ q < 2^53`: every normal double), saturating or
+    not, and all 256 table indices: the `min` with `2^31 − 1`, `quantise_scale` vs `QuantizeMultiplierGreaterThanOne`,
+    `diff_min`, the shifted difference fits int32 (no assert, no C overflow) and the two exponentials agree.
+    Excluded (hypothesis `hcarry`): the significand of `real_beta` rounds up to the multiplier `2^31`, where the Python
+    *rejects* and TFLite renormalises — `softmax_exp_table_m31_witness`. -/
+theorem softmax_exp_table_spec (q : Nat) (k : Int) (h1 : 2 ^ 52 ≤ q) (h2 : q < 2 ^ 53)
+    (hgt : k - 26 < 0 ∨ q > 2 ^ (k - 26).toNat)
+    (hcarry : ((SoftmaxRef.scaledClamped q k).1 + 2 ^ 21) / 2 ^ 22 ≠ 2 ^ 31) :
+    ∃ t, SoftmaxRef.expTableOfReal (SoftmaxRef.scaledClamped q k).1 (SoftmaxRef.scaledClamped q k).2 = some t ∧
+      SoftmaxTable.generateExpTable (.fin false q (26 - k)) = .ok t := by
+  by_cases hc : k - 26 ≤ 0 ∨ q > (2 ^ 31 - 1) * 2 ^ (k - 26).toNat
+  · obtain ⟨hm, hs⟩ := SoftmaxTable.clamped q k h1 hc
+    refine ⟨SoftmaxRef.expTable 2147483647 31, ?_, ?_⟩
+    · unfold SoftmaxRef.expTableOfReal
+      rw [hs]
+      show (match SoftmaxRef.quantizeMultiplierGreaterThanOne ((2 ^ 31 - 1) * 2 ^ 22) 22 with
+        | none => none | some (mult, ls) => some (SoftmaxRef.expTable mult ls)) = _
+      rw [SoftmaxTable.ref_max]
+    · apply SoftmaxTable.generate_of_pair _ 2147483647 31 _ (by decide) (by decide)
+      rw [hm, SoftmaxTable.quantise_max]
+      rfl
+  · have hk : 0 < k - 26 := by omega
+    have hle : q ≤ (2 ^ 31 - 1) * 2 ^ (k - 26).toNat := by omega
+    have hgt' : q > 2 ^ (k - 26).toNat := by omega
+    have hsc : SoftmaxRef.scaledClamped q k = (q, k - 26) := by
+      unfold SoftmaxRef.scaledClamped
+      simp only [hc, if_false]
+    have hcarry' : (q + 2 ^ 21) / 2 ^ 22 ≠ 2 ^ 31 := by rw [hsc] at hcarry; exact hcarry
+    obtain ⟨_, hq, href⟩ := SoftmaxTable.unclamped q k h1 h2 hk hle hgt' hcarry'
+    refine ⟨SoftmaxRef.expTable (((q + 2 ^ 21) / 2 ^ 22 : Nat) : Int) (79 - k).toNat, ?_, ?_⟩
+    · unfold SoftmaxRef.expTableOfReal
+      rw [href]
+    · exact SoftmaxTable.generate_of_pair _ _ _ hq (by omega) (by omega)
+
+/-- In the excluded corner the unchanged code raises and the reference does not (finding
+    `softmax-exp-table-multiplier-2^31-rejected`): whenever the significand of `real_beta` is within `2^-32` of 1,
+    `quantise_scale` returns the unnormalised multiplier `2^31`, the first computed entry trips the int32 assert of
+    `saturating_rounding_mul32`, while `QuantizeMultiplier` yields `(2^30, shift + 1)` and a table.  General in `q, k`;
+    non-vacuous: `q = 2^53 − 2^6`, `k = 58` (beta 10610063·2^-23, input scale 13264529·2^-29). -/
+theorem softmax_exp_table_m31_witness (q : Nat) (k : Int) (h1 : 2 ^ 52 ≤ q) (h2 : q < 2 ^ 53)
+    (hk : 0 < k - 26) (hle : q ≤ (2 ^ 31 - 1) * 2 ^ (k - 26).toNat) (hgt : q > 2 ^ (k - 26).toNat)
+    (hcarry : (q + 2 ^ 21) / 2 ^ 22 = 2 ^ 31) :
+    SoftmaxTable.generateExpTable (.fin false q (26 - k)) = .error (.fp .assert_) ∧
+    SoftmaxRef.expTableOfReal (SoftmaxRef.scaledClamped q k).1 (SoftmaxRef.scaledClamped q k).2 =
+      some (SoftmaxRef.expTable 1073741824 (80 - k).toNat) := by
+  obtain ⟨hq, href⟩ := SoftmaxTable.unclamped_carry q k h1 h2 hk hle hgt hcarry
+  constructor
+  · unfold SoftmaxTable.generateExpTable
+    rw [hq]
+    have e : (31 : Int) - (31 - (((79 - k).toNat : Nat) : Int)) = ((79 - k).toNat : Nat) := by omega
+    simp only [e]
+    exact SoftmaxTable.tableFrom_m31 _
+  · unfold SoftmaxRef.expTableOfReal
+    rw [href]
+
+/-- every entry of the reference table (hence, by `softmax_exp_table_spec`, of the generated one) is a Q0.31 value in
+    `[0, 2^31 − 1]`, there are 256 of them, the entries whose difference lies below `diff_min` are 0 and the last entry
+    (`input_diff = 0`) is `exp(0) = 2^31 − 1` — for every multiplier and left shift -/
+theorem softmax_exp_table_range (mult : Int) (ls : Nat) :
+    (SoftmaxRef.expTable mult ls).length = 256 ∧
+    (∀ v ∈ SoftmaxRef.expTable mult ls, 0 ≤ v ∧ v ≤ 2147483647) ∧
+    (∀ x : Nat, x < 256 → (x : Int) - 255 < -(SoftmaxRef.calculateInputRadius 5 ls) →
+      (SoftmaxRef.expTable mult ls)[x]? = some 0) ∧
+    (SoftmaxRef.expTable mult ls)[255]? = some 2147483647 := by
+  refine ⟨by simp [SoftmaxRef.expTable], ?_, ?_, ?_⟩
+  · intro v hv
+    simp only [SoftmaxRef.expTable, List.mem_map] at hv
+    obtain ⟨x, _, rfl⟩ := hv
+    unfold SoftmaxRef.expEntry
+    split
+    · exact SoftmaxTable.expOnNegativeValues_range _ (FpMath.srdhm32_range _ _)
+    · decide
+  · intro x hx hlt
+    unfold SoftmaxRef.expTable
+    rw [List.getElem?_map, List.getElem?_range hx]
+    unfold SoftmaxRef.expEntry
+    have : ¬ ((x : Int) - 255 ≥ -(SoftmaxRef.calculateInputRadius 5 ls)) := by omega
+    simp only [Option.map_some, this, if_false]
+  · unfold SoftmaxRef.expTable
+    rw [List.getElem?_map, List.getElem?_range (by decide)]
+    unfold SoftmaxRef.expEntry
+    have hR : 0 ≤ SoftmaxRef.calculateInputRadius 5 ls := by
+      unfold SoftmaxRef.calculateInputRadius
+      exact Int.ediv_nonneg (by decide) (by have := FpMath.two_pow_pos ls; omega)
+    have : (((255 : Nat) : Int) - 255 ≥ -(SoftmaxRef.calculateInputRadius 5 ls)) := by omega
+    simp only [Option.map_some, this, if_true]
+    have e0 : (((255 : Nat) : Int) - 255) * 2 ^ ls = 0 := by simp
+    rw [e0]
+    have : Gemmlowp.srdhm32 (Gemmlowp.cast32 0) mult = 0 := by
+      have hc0 : Gemmlowp.cast32 0 = 0 := by decide
+      rw [hc0]
+      unfold Gemmlowp.srdhm32
+      have hf : ((0:Int) == Gemmlowp.int32Min) = false := by decide
+      simp only [Int.zero_mul, hf, Bool.and_false, Bool.false_eq_true, if_false]
+      decide
+    rw [this]
+    decide
+
+/- Full statement wanted: the table is non-decreasing in the index, for every multiplier in `[0, 2^31 − 1]` and every
+   left shift.  Proved here **given** that gemmlowp's `exp_on_negative_values` is non-decreasing on int32 `a ≤ b ≤ 0`
+   (hypothesis `hmono`).  That hypothesis holds — an exhaustive C evaluation of all 2^31 + 1 arguments finds no descent
+   (design.d/C19.md) — but it is not proved in Lean: it needs an error analysis of the degree-4 polynomial and of the
+   seven barrel-shifter roundings.  Everything else (the rescaling `SaturatingRoundingDoublingHighMul(d·2^ls, mult)` is
+   monotone in `d`, entries below `diff_min` are 0 ≤ every exponential) is proved. -/
+theorem softmax_exp_table_monotone_partial (mult : Int) (ls : Nat) (hm1 : 0 ≤ mult) (hm2 : mult ≤ 2147483647)
+    (hmono : ∀ a b : Int, -2147483648 ≤ a → a ≤ b → b ≤ 0 →
+      Gemmlowp.expOnNegativeValues a ≤ Gemmlowp.expOnNegativeValues b) :
+    (SoftmaxRef.expTable mult ls).Pairwise (· ≤ ·) := by
+  unfold SoftmaxRef.expTable
+  rw [List.pairwise_map]
+  refine List.Pairwise.imp_of_mem ?_ (List.pairwise_lt_range (n := 256))
+  intro a b _ hb hab
+  exact SoftmaxTable.entry_mono mult ls hm1 hm2 hmono a b (List.mem_range.1 hb) hab
+
 /-! ## constants quoted from the live source equal the gemmlowp constants -/
 
 /-- the polynomial constants and the seven barrel-shifter multipliers `exp(-2^k)` (Q0.31) in `fp_math.py`
@@ -270,5 +426,17 @@ example : lreluEntry true 3 (-8) 1717986854 32 1 1374389504 35 (-128) = .ok (-13
 example : quantizeFold (-128) 127 3 (-5) 1073741824 29 [-128, 0, 127] = .ok [-128, -11, 127] := by decide
 -- hardswish: int8, ifm scale 0.05 (relu shift 29 < 31: the branch that crashes in the unpatched code), ofm scale 0.04
 example : hardswishEntry true (-3) 5 25600 38 18204 29 127 = .ok 107 ∧ hardswishEntry true (-3) 5 25600 38 18204 29 (-30) = .ok (-3) := by decide
+
+-- softmax exp table: beta 1.0, input scale 1/256 -> prod = 2^18 = 2^52·2^(26−60): hypotheses hold, multiplier 2^30, shift 19
+example : (60:Int) - 26 < 0 ∨ (2:Nat) ^ 52 > 2 ^ ((60:Int) - 26).toNat := by decide
+example : ((SoftmaxRef.scaledClamped (2 ^ 52) 60).1 + 2 ^ 21) / 2 ^ 22 ≠ 2 ^ 31 := by decide
+example : SoftmaxRef.quantizeMultiplierGreaterThanOne (SoftmaxRef.scaledClamped (2 ^ 52) 60).1 (SoftmaxRef.scaledClamped (2 ^ 52) 60).2
+    = some (1073741824, 19) := by decide
+example : SoftmaxRef.expEntry 1073741824 19 (-(SoftmaxRef.calculateInputRadius 5 19)) (-255) = 793107307 ∧
+    SoftmaxRef.expEntry 1073741824 19 (-(SoftmaxRef.calculateInputRadius 5 19)) (-1) = 2139110984 := by decide
+-- the excluded corner is inhabited: q = 2^53 − 2^6, k = 58 (beta 10610063·2^-23, input scale 13264529·2^-29)
+example : (2:Nat) ^ 52 ≤ 2 ^ 53 - 2 ^ 6 ∧ 2 ^ 53 - 2 ^ 6 < (2:Nat) ^ 53 ∧ (0:Int) < 58 - 26 ∧
+    2 ^ 53 - 2 ^ 6 ≤ (2 ^ 31 - 1) * 2 ^ ((58:Int) - 26).toNat ∧ 2 ^ 53 - 2 ^ 6 > 2 ^ ((58:Int) - 26).toNat ∧
+    (2 ^ 53 - 2 ^ 6 + 2 ^ 21) / 2 ^ 22 = 2 ^ 31 := by decide
 
 end VelaVerif.Props.C19
